@@ -21,6 +21,7 @@ RULE = ("bodies of boundary lengths (0, 1, 243..245, 487..489, k*244+-1, random 
         "position x masks {single bits, 0xFF, the mask that zeroes the byte, random} of encoded blocks with data lengths 0,1,243,244 "
         "and of a block whose checksum is 0x0081 (enumerated); 1-3 bytes altered at once with the checksum forced to 0000 / FFFF / "
         "swapped / one byte zero / sum of data only (judged by the reference parser); system bytes reused after a completed message; "
+        "two protocol objects fed multi-block messages with the same system bytes (interleaved, or abandoned and repeated); "
         "distinct by (oracle, header fields, body hash | corruption position and mask); all are non-trivial")
 ASSUMPTIONS = ["lib/wire.py implements the SEMI E4 block layout and checksum", "corruption of the length byte is outside the "
                "statement and only required not to yield an accepted block", "reassembly is fed in order within a message"]
